@@ -5643,7 +5643,7 @@ elementLoop:
 			}
 			key := c.resolve(e.Key)
 			val := c.resolve(e.Value)
-			if vm.IsMutableCollection(key) || vm.IsMutableCollection(val) {
+			if key.IsUndefined() || val.IsUndefined() || vm.IsMutableCollection(key) || vm.IsMutableCollection(val) {
 				break elementSwitch
 			}
 
@@ -5684,7 +5684,7 @@ elementLoop:
 			}
 			key := c.resolve(e.Key)
 			val := c.resolve(e.Value)
-			if vm.IsMutableCollection(key) || vm.IsMutableCollection(val) {
+			if key.IsUndefined() || val.IsUndefined() || vm.IsMutableCollection(key) || vm.IsMutableCollection(val) {
 				break elementSwitch
 			}
 
@@ -5743,7 +5743,7 @@ elementLoop:
 			}
 			key := c.resolve(e.Key)
 			val := c.resolve(e.Value)
-			if vm.IsMutableCollection(key) || vm.IsMutableCollection(val) {
+			if key.IsUndefined() || val.IsUndefined() || vm.IsMutableCollection(key) || vm.IsMutableCollection(val) {
 				break elementSwitch
 			}
 
@@ -6196,7 +6196,7 @@ elementLoop:
 			}
 			key := c.resolve(e.Key)
 			val := c.resolve(e.Value)
-			if vm.IsMutableCollection(key) || vm.IsMutableCollection(val) {
+			if key.IsUndefined() || val.IsUndefined() || vm.IsMutableCollection(key) || vm.IsMutableCollection(val) {
 				break elementSwitch
 			}
 
@@ -6237,7 +6237,7 @@ elementLoop:
 			}
 			key := c.resolve(e.Key)
 			val := c.resolve(e.Value)
-			if vm.IsMutableCollection(key) || vm.IsMutableCollection(val) {
+			if key.IsUndefined() || val.IsUndefined() || vm.IsMutableCollection(key) || vm.IsMutableCollection(val) {
 				break elementSwitch
 			}
 
@@ -6296,7 +6296,7 @@ elementLoop:
 			}
 			key := c.resolve(e.Key)
 			val := c.resolve(e.Value)
-			if vm.IsMutableCollection(key) || vm.IsMutableCollection(val) {
+			if key.IsUndefined() || val.IsUndefined() || vm.IsMutableCollection(key) || vm.IsMutableCollection(val) {
 				break elementSwitch
 			}
 
